@@ -54,7 +54,7 @@ func kinds(ks ...string) map[string]bool {
 var bothBackends = []string{"buf", "file"}
 
 var propSpecs = map[string]PropSpec{
-	"C01": {Profile: Profile{MaxCap: 8, MaxOps: 6, BigData: true, Backends: bothBackends, Rejects: 40, ObsReload: true, DetBias: 300},
+	"C01": {Profile: Profile{MaxCap: 8, MaxOps: 6, BigData: true, Backends: bothBackends, Rejects: 40, ObsReload: true, DetBias: 300, Foreign: 200},
 		Kinds: kinds("res", "hdr", "obj", "file", "rl", "shape"), Cases: [2]int{700, 12000}, Oracles: []string{"C01", "C08", "C02"},
 		Prop: "C01", Relabel: map[string]string{"C02:bystander-changed": "C01:earlier-object-changed",
 			"C08:reload-fails": "C01:reload-fails", "C08:handle-vs-reload": "C01:reload-differs"},
